@@ -67,7 +67,7 @@ func analyseCompaction(p *Program) *compactAnalysis {
 		Pure: map[string]bool{"(*RefRecord).IsDeletion": true, "(*LogRecord).IsDeletion": true, "(*Reader).MinUpdateIndex": true, "(*Reader).MaxUpdateIndex": true,
 			"(*Reader).Name": true},
 		Opaque: map[string]bool{"(*Merged).SeekRef": true, "(*Merged).SeekLog": true, "NewWriter": true},
-		OnStoreHook: func(c *simClient, x *Exec, st *State, fr *Frame, pos token.Pos, addr, val *Term) {
+		OnStoreHook: func(c *simClient, x *Exec, st *State, fr *Frame, pos token.Pos, addr, val, old *Term) {
 			if addr.Op == "field" && addr.Aux == "Merged.suppressDeletions" && val != tFalse {
 				a.rawViol = append(a.rawViol, p.pos(pos))
 			}
